@@ -112,6 +112,55 @@ def run(ctx, F, cg):
             ctx.ok("R15d", "append|order", "sequence++ dominates both writes; prefix = len(payload) written first")
         else:
             ctx.violation("R15d", "append|order", where(ap, w0.line), "append order broken: increment-dominates=%s, prefix-is-len-of-payload=%s" % (ok, same))
+    # ---- R15e: file names sort in sequence order -------------------------------------------------------------------
+    ctx.rule("R15e", "replay orders the log files by sorting their names, so the sequence in the file name is zero-padded hex of fixed width (>= 16 digits): unpadded names sort wal-10 before wal-2")
+    from .. import consts as _consts
+    onf = F.fn(WAL + "open_new_file")
+    ob = Body(F.mir(onf["path"]), onf)
+    gwf = F.fn(WAL + "get_wal_files")
+    gb = Body(F.mir(gwf["path"]), gwf)
+    ctx.saw_fn(onf["path"], gwf["path"])
+    sorts_names = any(c.path.rsplit("::", 1)[-1] in ("sort", "sort_unstable") and "PathBuf" in c.full for c in gb.calls())
+    numeric_sort = any(c.path.rsplit("::", 1)[-1] in ("sort_by_key", "sort_by_cached_key", "sort_by", "sort_unstable_by_key") for c in gb.calls())
+    tpl = [t for line, t in _consts.format_templates(ob) if any(x[0] == "lit" and x[1].startswith("wal-") for x in t)]
+    if not tpl:
+        ctx.anchor_failure("R15e", "file-name format template in Wal::open_new_file")
+    else:
+        args_ = [x for x in tpl[0] if x[0] == "arg"]
+        a = args_[0] if args_ else None
+        width = a[4] if a else None
+        zero = bool(a and a[3] is not None and (a[3] >> 24) & 1)
+        if numeric_sort and not sorts_names:
+            ctx.ok("R15e", "file-order", "files are ordered by a key function, not by name")
+        elif width is not None and width >= 16 and zero:
+            ctx.ok("R15e", "file-order", "names are sorted lexicographically and the sequence is zero-padded to %d hex digits" % width)
+        else:
+            ctx.violation("R15e", "open_new_file|unpadded-file-name", where(onf), "log files are replayed in name order but the sequence in the name is not zero-padded to a fixed width (width=%s, zero-pad=%s): from the 16th file on, records are replayed out of append order" % (width, zero))
+    # ---- R15f: a torn record ends the *file*, not the replay ------------------------------------------------------
+    ctx.rule("R15f", "on UnexpectedEof replay leaves the per-file loop and goes on to the next file: every path from the torn-record branch to the return passes the file iterator again (records appended after a reopen live in later files)")
+    file_next = {c.bb for c in b.calls() if c.path.endswith("Iterator>::next") and "PathBuf" in c.full}
+    if not file_next:
+        ctx.anchor_failure("R15f", "iteration over the log files in Wal::replay")
+    else:
+        k = 0
+        for e in b.calls():
+            if e.path.rsplit("::", 1)[-1] in ("eq", "ne") and "ErrorKind" in e.full and "UnexpectedEof" in " ".join(b.operand_text(a) for a in e.args) and e.target is not None:
+                t = b.blocks[e.target]["t"]
+                if t[0] != "switch":
+                    continue
+                false_t = [tgt for v, tgt in t[2] if v == "0"]
+                eof_t = t[3] if e.path.endswith("::eq") else (false_t[0] if false_t else None)
+                if eof_t is None:
+                    continue
+                rets = b.ret_blocks()
+                ok = all(b.must_pass(eof_t, rb, file_next) for rb in rets if rb in b.reachable(eof_t))
+                inst = "replay|torn-record-ends-file|%d" % k
+                k += 1
+                if ok:
+                    ctx.ok("R15f", inst, "the torn-record branch continues with the next log file")
+                else:
+                    ctx.violation("R15f", inst, where(rp, b.blocks[eof_t]["l"]), "a torn record makes replay return at once: complete records in later files (appended after the reopen that followed the crash) are dropped")
+        ctx.floor("R15f", "UnexpectedEof branches in replay", k, 2)
     return ("Decided: torn-tail handling on both reads of replay, sequence initialisation from decoded log contents, checksum field coverage, "
             "and the write order of append. Not decided: byte-level behaviour of bincode on torn/corrupt input, strength of the XOR checksum.")
 
